@@ -20,7 +20,9 @@ RULE = ("cases: histories over 2 clusters, 7 addresses, 3 backend ids, 3 sticky 
         "counts, policy changes over the six policies (Maglev with prime tables 2..31 and the production size), "
         "interleaved with keyed / unkeyed selections, sticky look-ups, the connect entry points (try_connect, "
         "backend_from_cluster_id, backend_from_sticky_session, with one address the kernel refuses synchronously) "
-        "and full state dumps. Non-trivial and "
+        "and full state dumps; health-checker histories (c*): the real HealthChecker over scripted backends (200, 503, close, "
+        "refuse, hang, half a status line) with the clock aged through the hook, backends removed / re-added with "
+        "a probe in flight, configuration removed and set again. Non-trivial and "
         "distinct: >=2 selections with >=2 different candidate lists, one of them reached through a health / "
         "back-off / closing / backup change (a non-default eligibility state), distinct by op text.")
 ASSUMPTIONS = [
@@ -295,6 +297,60 @@ def history_case(rng, cid, focus=None):
     return Case(cid, with_oracle(g.ops), {})
 
 
+HC_ADDRS = [10, 11, 12, 13, 14, 15]      # 10..14: scripted servers of the driver, 15: nobody listens
+
+
+def hc_history(rng, cid):
+    """the real HealthChecker over scripted backends: answering 200 / 503, closing, refusing, hanging
+    after accept, sending half a status line; probes started, deduplicated, timed out, thresholds crossed, backends
+    removed / re-added with a probe in flight, the configuration removed and set again"""
+    g = Gen(rng)
+    g.addrs = HC_ADDRS
+    c = 0
+    g.ops.append(["policy", c, rng.choice(["rr", "least", "random"]), 0, 0])
+    g.kind[c] = g.ops[-1][2]
+    for a in rng.sample(HC_ADDRS, rng.randint(2, 4)):
+        g.add(c, a, rng.choice(IDS))
+    for a in HC_ADDRS[:5]:
+        if rng.random() < 0.6:
+            g.ops.append(["server", a, rng.choice([0, 0, 1, 2, 3, 3, 4])])
+
+    def config():
+        g.ops.append(["hc_config", c, rng.choice([1, 1, 2, 3]), rng.choice([1, 2, 2, 3]), rng.choice([1, 1, 2, 3]),
+                      rng.choice([1, 1, 2, 3]), rng.choice([0, 0, 0, 200, 503])])
+    config()
+    for _ in range(rng.randint(8, 30)):
+        x = rng.random()
+        if x < 0.30:
+            g.ops.append(["pump"])
+        elif x < 0.55:
+            g.ops.append(["advance", rng.choice([1, 1, 1, 2, 3])])
+            g.ops.append(["pump"])
+        elif x < 0.65:
+            g.ops.append(["server", rng.choice(HC_ADDRS[:5]), rng.choice([0, 0, 1, 2, 3, 3, 4])])
+        elif x < 0.72:
+            g.add(c, rng.choice(HC_ADDRS), rng.choice(IDS))
+        elif x < 0.78:
+            g.remove(c)
+        elif x < 0.86:
+            g.select(c)
+        elif x < 0.89 and g.nh:
+            g.ops.append(["closing", g.handle()])
+        elif x < 0.92:
+            g.ops.append(["hc_remove", c])
+            if rng.random() < 0.7:
+                config()
+        elif x < 0.95:
+            config()
+        else:
+            g.ops.append(["dump"])
+        if rng.random() < 0.2:
+            g.ops.append(["dump"])
+    g.ops += [["advance", 3], ["pump"], ["advance", 3], ["pump"], ["dump"]]
+    g.select(c)
+    return Case(cid, g.ops, {})
+
+
 def production_case(rng, cid):
     """the production Maglev table (65537 slots): a few backend sets, every slot compared"""
     g = Gen(rng)
@@ -326,6 +382,8 @@ def gen_cases(rng, tier):
         out.append(history_case(rng, "h%d" % i, focus[i % len(focus)]))
     for i in range({"quick": 2, "thorough": 40}.get(tier, 2)):
         out.append(production_case(rng, "m%d" % i))
+    for i in range({"quick": 200, "thorough": 6000, "search": 1500}.get(tier, 200)):
+        out.append(hc_history(rng, "c%d" % i))
     return out
 
 
@@ -383,6 +441,9 @@ def nontrivial(case, o):
         if op[0] == "select" and ob:
             n = ob[0]
             cands.add(tuple(ob[1:1 + n]))
+    if any(op[0] == "hc_config" for op in case.ops):      # health-checker histories: a probe timed out and a backend changed health
+        flights = [ob for op, ob in zip(case.ops, o["obs"]) if op[0] == "pump" and ob]
+        return any(ob[0] >= 1 for ob in flights) and any(ob[0] == 0 for ob in flights)
     special = any(op[0] in ("health", "fail", "force", "closing") or (op[0] == "add" and op[7] == 1) for op in case.ops)
     return len([1 for op in case.ops if op[0] == "select"]) >= 2 and len(cands) >= 2 and special
 
